@@ -167,9 +167,51 @@ def _shard(shard, nshards, payload):
     return st
 
 
+def real_histories(tier):
+    """sequences of REAL interpreter processes, each making one definition in the same harness second, some of
+    them started with -O (their bytecode lives under another name and survives the other's clean-up)"""
+    import itertools as it
+    procs = [(d, o) for d in ('A', 'A2') for o in (False, True)]
+    out = []
+    for n in ((2, 3, 4) if tier == 'quick' else (2, 3, 4, 5)):
+        for seq in it.product(procs, repeat=n):
+            if not any(o for _, o in seq):
+                continue            # without -O the virtual-process histories cover it
+            if len({d for d, _ in seq}) < 2:
+                continue
+            out.append(seq)
+    return out
+
+
+def real_shard(shard, nshards, payload):
+    st = Stats()
+    for i, seq in enumerate(real_histories(payload['tier'])):
+        if i % nshards != shard:
+            continue
+        scratch = common.new_scratch_dir('c15o')
+        cache.write_source(scratch)
+        try:
+            for j, (decl, opt_level) in enumerate(seq):
+                out = cache.real_define(scratch, CLOCK0, decl, 'noann', True, optimize=opt_level)
+                st.inc('real_definitions')
+                why = cache.judge(decl, out)
+                if why:
+                    hist = ' ; '.join('python%s: define(%s)' % (' -O' if o else '', d) for d, o in seq[:j + 1])
+                    st.violate('real processes with mixed optimisation levels: %s' % ('definition fails' if 'failed' in why else 'behaves per another declaration'),
+                               'history of real interpreter processes (same second, bytecode on): %s => %s' % (hist, why),
+                               {'real': [[d, o] for d, o in seq[:j + 1]]})
+                    break
+            st.inc('real_histories')
+            st.add('states', ('real', cache.snap_key(cache.snapshot_dir(scratch))))
+        finally:
+            shutil.rmtree(scratch, ignore_errors=True)
+    return st
+
+
 def run(tier):
     depth = 3 if tier == 'quick' else 4
     st = common.merge_all(common.run_sharded(_shard, {'tier': tier, 'depth': depth, 'replays': 3 if tier == 'quick' else 12}))
+    st.merge(common.merge_all(common.run_sharded(real_shard, {'tier': tier})))
     if not st.samples:
         st.sample({'history': describe([('define', 'A', 'def'), ('forget',), ('define', 'A2', 'def')])})
     cov = {
@@ -177,6 +219,7 @@ def run(tier):
         'traces_validated_against_impl': st.n.get('histories', 0), 'evaluations': st.n.get('histories', 0),
         'distinct_nontrivial': st.count('states'), 'programs': len(alphabet(tier)) - len(CTRL),
         'real_process_replays': st.n.get('real_replays', 0), 'definitions_checked': st.n.get('definitions', 0),
+        'real_process_histories_with_mixed_optimisation_levels': st.n.get('real_histories', 0), 'real_definitions': st.n.get('real_definitions', 0),
         'rule': 'all histories of length <=%d ending in a definition over %d operations (define x %d declaration/option pairs incl. two declarations whose '
                 'generated source has the same length, new process, clock tick, bytecode toggle, forget sources) on real files with harness time stamps '
                 '(everything within one second unless a tick occurs); every definition and every class still alive in the process checked on a battery '
@@ -191,6 +234,18 @@ def run(tier):
 
 
 def replay(case):
+    if 'real' in case:
+        scratch = common.new_scratch_dir('c15o')
+        cache.write_source(scratch)
+        try:
+            for decl, o in case['real']:
+                out = cache.real_define(scratch, CLOCK0, decl, 'noann', True, optimize=o)
+                why = cache.judge(decl, out)
+                if why:
+                    return [{'sig': 'real processes with mixed optimisation levels', 'what': why}]
+            return []
+        finally:
+            shutil.rmtree(scratch, ignore_errors=True)
     hist = [tuple(o) for o in case['hist']]
     bad, _, _, _ = run_history(hist)
     return [{'sig': signature(hist, b[0], b[1], b[2], b[4]), 'what': '%s: %s' % (describe(hist), b[4])} for b in bad]
